@@ -1795,6 +1795,7 @@ class Isometry(projective.Transformation, HyperbolicObject):
         # find fixpoints in projective space, and their eigenvalues and minkowski norms
 
         eigvals, eigvecs = utils.eig(self.proj_data.swapaxes(-1, -2))
+        eigvals, eigvecs = self._refine_fixed_vectors(eigvals, eigvecs)
         norms = utils.normsq(eigvecs.swapaxes(-1, -2),  self.minkowski)
 
         # 1 for eigenvectors which actually lie in H^n, 0 for outside vectors
@@ -1817,6 +1818,33 @@ class Isometry(projective.Transformation, HyperbolicObject):
         pt_data = np.take_along_axis(eigvecs, sort_indices, axis=-1).swapaxes(-1, -2)
 
         return pt_data
+
+    def _refine_fixed_vectors(self, eigvals, eigvecs):
+        # when the eigenvalue 1 has an eigenspace of dimension > 1
+        # (e.g. a rotation about a codimension-2 subspace), or is
+        # defective (a parabolic isometry), eig returns an arbitrary,
+        # possibly complex or inaccurate basis of the fixed vectors. we
+        # replace it by a basis of the kernel of M - I which is
+        # orthogonal for the Minkowski form and sorted by norm, so that
+        # a fixed point in the closed ball is among the candidates
+        # whenever there is one.
+        eigvals, eigvecs = np.array(eigvals), np.array(eigvecs)
+        n = eigvecs.shape[-1]
+        matrices = self.proj_data.reshape((-1, n, n))
+        vals, vecs = eigvals.reshape((-1, n)), eigvecs.reshape((-1, n, n))
+
+        for matrix, val, vec in zip(matrices, vals, vecs):
+            fixed = utils.kernel(matrix.T - np.identity(n))
+            k = fixed.shape[-1]
+            if k == 0:
+                continue
+
+            _, coeffs = np.linalg.eigh(fixed.T @ self.minkowski @ fixed)
+            indices = np.argsort(np.abs(val - 1))[:k]
+            vec[:, indices] = fixed @ coeffs
+            val[indices] = 1
+
+        return eigvals, eigvecs
 
     def _data_to_object(self, data):
         return HyperbolicObject(data)
